@@ -55,7 +55,7 @@ func main() {
 	if tier == "" {
 		tier = "quick"
 	}
-	work := filepath.Join(base, fmt.Sprintf("e2-%s-%s-%s", prop, scen, tier))
+	work := filepath.Join(base, fmt.Sprintf("e2-%s-%s-%s", prop, strings.ReplaceAll(scen, ",", "+"), tier))
 	if repo != "/repo" {
 		work += "-alt"
 	}
@@ -96,9 +96,25 @@ func main() {
 		fatal(prop, "instrumenting %s: %v", repo, err)
 	}
 	// 3. the scenario package (type-checked against the original repository, rewritten the same way)
-	if err := rewrite.Rewrite(verif, filepath.Join(verif, "scenarios"), scenDst, "verif", []string{"./scenarios/" + scen}); err != nil {
+	// (several comma-separated packages may be given; the first one holds the registry)
+	scens := strings.Split(scen, ",")
+	var pats []string
+	for _, sc := range scens {
+		pats = append(pats, "./scenarios/"+sc)
+	}
+	scen = scens[0]
+	if err := rewrite.Rewrite(verif, filepath.Join(verif, "scenarios"), scenDst, "verif", pats); err != nil {
 		fatal(prop, "instrumenting scenario %s: %v", scen, err)
 	}
+	// scenario packages import each other as verif/scenarios/<name>; inside the scratch module they are scen/<name>
+	filepath.WalkDir(scenDst, func(p string, d fs.DirEntry, err error) error {
+		if err == nil && !d.IsDir() && strings.HasSuffix(p, ".go") {
+			if b, e := os.ReadFile(p); e == nil && strings.Contains(string(b), "\"verif/scenarios/") {
+				os.WriteFile(p, []byte(strings.ReplaceAll(string(b), "\"verif/scenarios/", "\"scen/")), 0o644)
+			}
+		}
+		return nil
+	})
 	gomod := fmt.Sprintf(`module scen
 
 go 1.23
@@ -124,7 +140,7 @@ replace verifrt => %s
 	os.MkdirAll(filepath.Dir(bin), 0o755)
 	args := []string{"build", "-tags", "verif", "-o", bin}
 	if race {
-		args = append(args, "-race", "-gcflags=verifrt/...=-race=false")
+		args = append(args, "-race", "-gcflags=verifrt/...=-race=false -l")
 	}
 	args = append(args, ".")
 	cmd := exec.Command("go", args...)
@@ -145,6 +161,10 @@ replace verifrt => %s
 	os.MkdirAll(jobs, 0o755)
 	run := exec.Command(bin, prop)
 	run.Env = append(os.Environ(), "VERIF_E2_WORK="+jobs, "GOMAXPROCS=2")
+	if race {
+		// reports go to <jobs>/race.<pid>; the driver attributes them to the schedule that produced them
+		run.Env = append(run.Env, "GORACE=halt_on_error=0 exitcode=0 log_path="+filepath.Join(jobs, "race"), "VERIF_RACE_LOG="+filepath.Join(jobs, "race"))
+	}
 	run.Stdout = os.Stdout
 	run.Stderr = os.Stderr
 	err = run.Run()
